@@ -117,6 +117,12 @@ pub fn gen_bigram(rng: &mut Rng, nr: usize, nl: usize, dual: bool, k_choice: Opt
     };
     let mut right = mk(rng, nr - 1);
     let mut left = mk(rng, nl - 1);
+    // a row consisting of exactly one empty cell cannot be told from a row without cells in the file
+    for row in right.iter_mut().chain(left.iter_mut()) {
+        if row.len() == 1 && row[0].is_empty() {
+            row[0] = "*".into();
+        }
+    }
     if !right.is_empty() && !left.is_empty() && rng.chance(0.8) {
         // make sure at least one row on each side has full length
         let i = rng.below(right.len());
